@@ -10,6 +10,8 @@ U3: the original and rewritten terms are projected back to spec terms and Trace_
     evaluates both with the spec's own semantics (FAIR.tla: exact rationals and IEEE arithmetic)
     under every assignment of a small domain.  No Python interpreter of the IR is involved.
 """
+import contextlib
+import io
 import json
 import math
 import os
@@ -53,23 +55,72 @@ def gen_terms(gen, chk, maxops=2, nrandom=100, maxdepth=4, seed=1):
     return [h[1] for h in tlaval.fast_tuples(r.out, "H")]
 
 
+CNUMS = {"1+2j": 1 + 2j, "3+4j": 3 + 4j, "0": 0j, "1j": 1j}
+CTYPE = {"float": "complex", "float32": "complex64", "float64": "complex128"}
+
+
 def build(ctx, term, ty):
     """nested tuple from FATerms -> real Expr"""
     k = term[0]
     x = ctx.symbol("x", ty)
     if k == "sym":
+        if term[1] in ("z", "w"):
+            return ctx.symbol(term[1], CTYPE[ty])
         return ctx.symbol(term[1], "boolean" if term[1] in ("b", "c") else ty)
     if k == "num":
         return ctx.constant(NUMS[term[1]], x)
+    if k == "numz":
+        return ctx.constant(NUMS[term[1]], ctx.symbol("z", CTYPE[ty]))
+    if k == "cnum":
+        return ctx.constant(CNUMS[term[1]], ctx.symbol("z", CTYPE[ty]))
     if k == "named":
         return ctx.constant(term[1], x)
     if k == "bool":
         return ctx.constant(bool(term[1]))
+    if k == "idx":
+        return int(term[1])
+    if k == "idxc":
+        return ctx.constant(int(term[1]))
+    if k == "list":
+        return ctx.list([build(ctx, t, ty) for t in term[1:]])
     ops = [build(ctx, t, ty) for t in term[1:]]
     return getattr(ctx, k)(*ops)
 
 
-LEAF = dict(a=[], n="", q=[[0, []], [1]], b=False, t="")
+LEAF = dict(a=[], n="", q=[[0, []], [1]], b=False, t="", qi=[[0, []], [1]], lv=0)
+FMTBITS = {"float16": 16, "float32": 32, "float64": 64}
+
+
+def _bits_of(e):
+    """component width of a float/complex-typed expression, None if unsized / not a float"""
+    try:
+        t = e.get_type()
+        if t.kind == "float":
+            return t.bits
+        if t.kind == "complex":
+            return None if t.bits is None else t.bits // 2
+    except Exception:  # noqa
+        pass
+    return None
+
+
+def _is_complex_typed(e):
+    try:
+        return e.get_type().kind == "complex"
+    except Exception:  # noqa
+        return False
+
+
+def _level(e, fmt):
+    b = _bits_of(e)
+    if b is None:
+        return 0
+    return {1: 0, 2: 1, 4: 2}.get(b // FMTBITS[fmt], 0) if b >= FMTBITS[fmt] else {2: -1, 4: -2}.get(FMTBITS[fmt] // b, 0)
+
+
+def _frac(v):
+    fr = Fraction(v) if isinstance(v, int) else Fraction(float(v))
+    return [bits.zint(fr.numerator), bits.nat(fr.denominator)]
 
 
 def project(fa, e, fmt, memo=None):
@@ -81,19 +132,28 @@ def project(fa, e, fmt, memo=None):
         return memo[id(e)]
     if e.kind == "symbol":
         t = str(e.operands[1])
-        r = dict(LEAF, k="sym", n=e.operands[0], t="boolean" if t == "boolean" else fmt)
+        r = dict(LEAF, k="sym", n=e.operands[0], t="boolean" if t == "boolean" else "complex" if t.startswith("complex") else fmt)
     elif e.kind == "constant":
         v = e.operands[0]
+        lv = _level(e, fmt)
         if isinstance(v, Expr):
             r = dict(LEAF, k="unsupported_altconst")
         elif isinstance(v, (bool, numpy.bool_)):
             r = dict(LEAF, k="bool", b=bool(v))
         elif isinstance(v, str):
-            r = dict(LEAF, k="named", n=v)
+            r = dict(LEAF, k="named", n=v, lv=lv)
+        elif isinstance(v, (complex, numpy.complexfloating)):
+            cv = complex(v)
+            if math.isfinite(cv.real) and math.isfinite(cv.imag) and not (isinstance(v, numpy.complexfloating) and v.dtype.itemsize > 16):
+                r = dict(LEAF, k="cnum", q=_frac(cv.real), qi=_frac(cv.imag), lv=lv)
+            else:
+                r = dict(LEAF, k="unsupported_complex_value")
+        elif isinstance(v, (int, float, numpy.floating, numpy.integer)) and _is_complex_typed(e) and math.isfinite(float(v)):
+            r = dict(LEAF, k="cnum", q=_frac(v if isinstance(v, int) else float(v)), lv=lv)
         elif isinstance(v, (int, float, numpy.floating, numpy.integer)):
             fv = float(v) if not isinstance(v, int) else v
             if isinstance(fv, float) and math.isinf(fv):
-                r = dict(LEAF, k="named", n="posinf" if fv > 0 else "neginf")
+                r = dict(LEAF, k="named", n="posinf" if fv > 0 else "neginf", lv=lv)
             elif isinstance(fv, float) and math.isnan(fv):
                 r = dict(LEAF, k="named", n="nan")
             else:
@@ -101,11 +161,25 @@ def project(fa, e, fmt, memo=None):
                 if isinstance(v, numpy.floating) and v.dtype.itemsize > 8:
                     r = dict(LEAF, k="unsupported_longdouble")
                 else:
-                    r = dict(LEAF, k="num", q=[bits.zint(fr.numerator), bits.nat(fr.denominator)])
+                    r = dict(LEAF, k="num", q=[bits.zint(fr.numerator), bits.nat(fr.denominator)], lv=lv)
         else:
             r = dict(LEAF, k="unsupported_value_" + type(v).__name__)
+    elif e.kind in ("upcast", "downcast"):
+        (x,) = e.operands
+        bx, be = _bits_of(x), _bits_of(e)
+        if bx is None or be is None or bx == be:
+            kind = "positive"        # a cast of an unsized float is the identity
+        elif be == 2 * bx:
+            kind = "upcast"
+        elif 2 * be == bx:
+            kind = "downcast"
+        else:
+            kind = "unsupported_cast"
+        r = dict(LEAF, k=kind, a=[project(fa, x, fmt, memo)])
     else:
-        r = dict(LEAF, k=e.kind, a=[project(fa, o, fmt, memo) for o in e.operands])
+        r = dict(LEAF, k=e.kind, a=[project(fa, o, fmt, memo) if isinstance(o, Expr) else
+                                    dict(LEAF, k="num", q=_frac(o)) if isinstance(o, int) else dict(LEAF, k="unsupported_operand")
+                                    for o in e.operands])
     memo[id(e)] = r
     return r
 
@@ -165,7 +239,7 @@ def rewrite_event(fa, ctx, term, ty, fmt, variant, eid, with_infer):
     old = signal.signal(signal.SIGALRM, _alarm)
     signal.setitimer(signal.ITIMER_REAL, 20.0)
     try:
-        with warnings.catch_warnings():
+        with warnings.catch_warnings(), contextlib.redirect_stdout(io.StringIO()):   # the rewriter prints TODO/NOTIMPL notes
             warnings.simplefilter("ignore")
             if variant == "rewrite":
                 r = e.rewrite(rewrite_mod)
@@ -249,7 +323,7 @@ def check_tables(fa, chk):
 def key_of(ev, clauses):
     def shape(t, d=0):
         if isinstance(t, list):
-            if t[0] in ("sym", "bool"):
+            if t[0] in ("sym", "bool", "cnum", "numz", "idx", "idxc"):
                 return t[0]
             if t[0] == "num":
                 return "num"
@@ -259,6 +333,8 @@ def key_of(ev, clauses):
                 return t[0]
             return "%s(%s)" % (t[0], ",".join(shape(x, d + 1) for x in t[1:]))
         return str(t)
+    if list(clauses) == ["float_updown"]:
+        return "float_updown:upcast(downcast(x))->x"
     return "%s:%s" % ("+".join(clauses), shape(ev["src"]))
 
 
@@ -278,6 +354,8 @@ def run(tier, seed):
     jobs += [("relop", t) for t in gen_terms("relop", chk)]
     jobs += [("rules", t) for t in gen_terms("rules", chk)]
     jobs += [("random", t) for t in gen_terms("random", chk, nrandom=1500 if quick else 60000, maxdepth=4 if quick else 5, seed=seed + 7)]
+    jobs += [("ext", t) for t in gen_terms("ext", chk)]
+    jobs += [("extrandom", t) for t in gen_terms("extrandom", chk, nrandom=600 if quick else 30000, maxdepth=3 if quick else 4, seed=seed + 11)]
     tys = [("float", "float64"), ("float32", "float32"), ("float64", "float64")]
     variants = ["rewrite", "rewrite", "numpy+rewrite", "rewrite", "twice", "cpp+rewrite"]
     events = []
@@ -313,7 +391,9 @@ def run(tier, seed):
             uniq[k] = slim(e)
         rep.setdefault(uniq[k]["id"], []).append(e)
     chk.cov["distinct_rewrite_pairs_validated"] = len(uniq)
-    res = tlc.validate_events("Trace_Rewrite", "Trace.cfg", list(uniq.values()), name="rw", timeout=7200)
+    todo = list(uniq.values())
+    random.Random(seed * 7919 + 13).shuffle(todo)      # the chunks then cost about the same
+    res = tlc.validate_events("Trace_Rewrite", "Trace.cfg", todo, name="rw", timeout=7200)
     chk.add_trace("Trace_Rewrite", res, len(events), ntraces=len(uniq))
     byid = {e["id"]: e for e in events}
     witness = {i: w for i, w in res["notes"] if "unsupported" not in w and not w.startswith('"infer')}
